@@ -727,10 +727,52 @@ package router
 //@   ensures [C18:closer-iff-started] (err == nil) == (closer != nil)
 //@   callsite startTcpServer?: [C17:tls-listener-uses-tls] arg0 == r && arg1 == cfg && arg2 == (cfg.Protocol == "tls")
 //@   callsite startHttpServer?: [C17:https-listener-uses-tls] arg0 == r && arg1 == cfg && arg2 == (cfg.Protocol == "https")
+// startUdpServer: one socket per configured thread (at least one), each served by its own read loop; when opening
+// or preparing a socket fails, that socket and every socket opened before it are closed before the error is
+// returned.
+//@ func (s *udpServer) startThread(c *net.UDPConn) (err error)
+//@   props C01 C03
+//@   requires s != nil && routerReady(s.r) && udpOK(s) && c != nil
+//@   noterm
+//@   modifies *
+//@   ensures [C01:loop-ends-only-on-a-read-error] err != nil
+//@   callsite startThreadLinux?: arg0 == s && arg1 == c
+//@   callsite startThreadOthers?: arg0 == s && arg1 == c
 //@ func (r *router) startUdpServer(cfg *ServerConfig) (s *udpServer, err error)
-//@   trusted
+//@   props C18 C03
+//@   requires routerReady(r) && cfg != nil
+//@   ghost nSrvClose int = 0
+//@   ghost nSockClose int = 0
+//@   ghost gSetErr error = nil
+//@   ghost nSet int = 0
+//@   assumecall ListenPacket: ret1 == nil ==> typeIs(ret0, *net.UDPConn) && ptrOf(ret0, net.UDPConn) != nil
+//@   oncall udpServer.Close?: nSrvClose = nSrvClose + 1
+//@   oncall UDPConn.Close?: nSockClose = nSockClose + 1
+//@   oncall conn.Close?: nSockClose = nSockClose + 1
+//@   oncall SetOpt?: nSet = nSet + 1
+//@   aftercall SetOpt?: gSetErr = ret1
 //@   modifies nothing
 //@   ensures (err == nil) == (s != nil)
+//@   ensures err == nil ==> s.r == r && udpOK(s) && fresh(s)
+//@   ensures [C18:sockets-opened-before-a-failure-are-closed] err != nil ==> nSrvClose == 1
+//@   ensures [C18:socket-that-could-not-be-prepared-is-closed] err != nil && nSet >= 1 && gSetErr != nil ==> nSockClose == 1
+//@   ensures [C18:nothing-closed-on-success] err == nil ==> nSrvClose == 0 && nSockClose == 0
+//@   loop 1:
+//@     modifies s.cs, obj(s.cs)
+//@     invariant s.cs == nil || loopFresh(s.cs) || sameObj(s.cs, loopOld(s.cs))
+//@     invariant s != nil && fresh(s) && s.r == r && s.logger != nil && len(s.cs) == i && 0 <= i && nSrvClose == 0 && nSockClose == 0
+//@     invariant forall(k, 0, len(s.cs), s.cs[k] != nil && s.cs[k].c != nil && fresh(s.cs[k]))
+//@     invariant s.cs == nil || fresh(s.cs)
+//@     invariant gSetErr == nil && nSet >= 0
+//@     decreases threads - i
+//@   loop 2:
+//@     modifies nothing
+//@     invariant s != nil && s.r == r && udpOK(s) && fresh(s)
+//@ closure router.startUdpServer$1
+//@   props C18
+//@   requires s != nil && routerReady(s.r) && udpOK(s) && 0 <= i && i < len(s.cs)
+//@   modifies *
+//@   callsite startThread: [C03:one-read-loop-per-socket] arg0 == s && arg1 == s.cs[i].c
 //@ func (r *router) startGnetServer(cfg *ServerConfig) (s *gnetServer, err error)
 //@   trusted
 //@   modifies nothing
@@ -1390,17 +1432,17 @@ package router
 //@ func (s *tcpServer) Close() (err error)
 //@   props C18
 //@   requires s != nil && s.l != nil
-//@   modifies *
+//@   modifies nothing
 //@   ensures err == nil
 //@ func (s *quicServer) Close() (err error)
 //@   props C18
 //@   requires s != nil && s.l != nil
-//@   modifies *
+//@   modifies nothing
 //@   ensures err == nil
 //@ func (s *udpServer) Close() (err error)
 //@   props C18
 //@   requires s != nil && forall(k, 0, len(s.cs), s.cs[k] != nil && s.cs[k].c != nil)
-//@   modifies *
+//@   modifies nothing
 //@   ensures err == nil
 // Closing a listener: the "closed" flag is set BEFORE the socket is closed, so that the accept/read loop that is
 // woken by the close reports an orderly shutdown (errServerClosed) and not a fatal error; every socket the
